@@ -58,6 +58,14 @@ func InspectSymbolContent(name string) string {
 			break
 		}
 		char, bytes := utf8.DecodeRuneInString(str)
+		if char == utf8.RuneError && bytes == 1 {
+			// invalid UTF-8 byte
+			fmt.Fprintf(&result, `\x%02x`, str[0])
+			quotes = true
+			firstLetter = false
+			str = str[bytes:]
+			continue
+		}
 		str = str[bytes:]
 		switch char {
 		case '\\':
@@ -87,6 +95,12 @@ func InspectSymbolContent(name string) string {
 		case '"':
 			result.WriteString(`\"`)
 			quotes = true
+		case '$':
+			result.WriteString(`\$`)
+			quotes = true
+		case '#':
+			result.WriteString(`\#`)
+			quotes = true
 		case '_':
 			result.WriteByte('_')
 		default:
@@ -108,7 +122,7 @@ func InspectSymbolContent(name string) string {
 		firstLetter = false
 	}
 
-	if quotes {
+	if quotes || len(name) == 0 {
 		return fmt.Sprintf(`"%s"`, result.String())
 	}
 	return result.String()
